@@ -23,12 +23,16 @@ Definition wf_case (c : case) : bool :=
   | CBatch s o i pol a b _ => heights_wf s && heights_wf o && heights_wf i && opol_wf pol && in_u32 a && in_u32 b
   | CEnsure hs ex fs _ =>
       heights_wf hs && heights_wf (map fst ex) && (0 <=? fs) && forallb (fun e => 0 <=? snd e) ex
-  | CPut real budget chunk pre pol f bs _ post _ _ _ _ =>
+  | CPut real budget chunk pre pol f bs _ post _ _ _ _ _ =>
       let '(b1, b2, b3) := bs in
       let n := length (b_cnts b1) in
       (0 <? budget) && (0 <? chunk) && w3_all ps_in pre && w3_all ps_in post && opol_wf pol
       && in_u32 f && (f + Z.of_nat n <=? u32_max) && b_wf n b1 && b_wf n b2 && b_wf n b3
       && (if real then (budget =? PRUNING_DEPTH) && (chunk =? CHUNK_SIZE) else true)
-  | CTrunc pre blocks mn req _ post _ _ _ =>
+  | CRoots pre _ post _ _ _ _ => w3_all ps_in pre && w3_all ps_in post
+  | CTcs pre blocks mn target sizes _ post _ _ _ _ =>
+      w3_all ps_in pre && w3_all ps_in post && forallb in_u32 blocks && in_u32 target
+      && (let '(a, b, c) := sizes in (0 <=? a) && (0 <=? b) && (0 <=? c))
+  | CTrunc pre blocks mn req _ post _ _ _ _ =>
       w3_all ps_in pre && w3_all ps_in post && forallb in_u32 blocks && in_u32 req
   end.
